@@ -208,6 +208,12 @@ pub(crate) fn split_from_semicolon(sql: &str) -> Vec<String> {
     commands
 }
 
+/// Verification hook (only compiled with `--cfg datafusion_verif`).
+#[cfg(datafusion_verif)]
+pub fn verif_split_from_semicolon(sql: &str) -> Vec<String> {
+    split_from_semicolon(sql)
+}
+
 #[cfg(test)]
 mod tests {
     use std::io::{BufRead, Cursor};
